@@ -343,13 +343,13 @@ class DualPortSynchronousMemory(Logic):
         #print(f'reading address {add} = {self.data[add]}')
         self.readdata_a.prepare(self.data[radda])
         
-        if (self.writea.get()):
-            self.data[wadd] = self.writedataa.get()
+        if (self.write_a.get()):
+            self.data[wadda] = self.writedata_a.get()
             
         self.readdata_b.prepare(self.data[raddb])
         
-        if (self.writeb.get()):
-            self.data[wadd] = self.writedatab.get()
+        if (self.write_b.get()):
+            self.data[waddb] = self.writedata_b.get()
 
 
     def verilogBody(self):
